@@ -70,6 +70,13 @@ def mlem(op, x, data, niter, callback=None, **kwargs):
     osmlem : Ordered subsets MLEM
     loglikelihood : Function for calculating the logarithm of the likelihood
     """
+    sensitivities = kwargs.pop('sensitivities', None)
+    if sensitivities is not None:
+        if sensitivities in op.domain or isinstance(sensitivities, np.ndarray):
+            # A single element(-like), not a list with one entry per
+            # operator as expected by `osmlem`
+            sensitivities = [sensitivities]
+        kwargs['sensitivities'] = sensitivities
     osmlem([op], x, [data], niter=niter, callback=callback,
            **kwargs)
 
